@@ -324,12 +324,14 @@ theorem lookupDir_none (c : Char) (h : Dir.ofChar c = none) : lookupDir c = none
 
 theorem ofChar_some (c : Char) (dir : Dir) (h : Dir.ofChar c = some dir) : c = dir.toChar := by
   have := List.find?_some h
-  simpa using this.symm
+  simp only [beq_iff_eq] at this
+  exact this.symm
 
 theorem isWord_toChar (dir : Dir) : isWord dir.toChar = true := by cases dir <;> decide
 
 theorem toChar_ne_percent (dir : Dir) : dir.toChar ≠ '%' := by cases dir <;> decide
 
+#check @parseFmt.induct
 /-- On a format over the supported directives and literal text, the library's splitter and table
     produce exactly the specification's reading of it. -/
 theorem translate_scan (fmt : List Char) (items : List FItem) (h : parseFmt fmt = some items) :
